@@ -22,7 +22,7 @@ import hashlib
 import functools
 
 from sim import backends as B
-from sim.values import enc, dec, show
+from sim.values import enc, dec, show, Unpicklable
 from sim.simfs import SimFS, SimClock
 
 PROPS = ['C01', 'C02', 'C05', 'C06', 'C07', 'C15', 'C16', 'C18', 'C20']
@@ -64,6 +64,7 @@ class _R(object):
 
 
 _BIGRES = [False]
+_UNENC = [False]
 
 
 def _res(text):
@@ -77,6 +78,8 @@ def _res(text):
         return ''
     if h == 2:
         return 0
+    if h == 4 and _UNENC[0]:
+        return Unpicklable()       # a result no archive encoding accepts (dill, json and sqlite all refuse it)
     if h == 3:
         # larger than one write buffer; in "bigres" runs larger than one MiB (block-wise (de)compression)
         return text + '#' * (1200000 if _BIGRES[0] else 9000)
@@ -392,7 +395,9 @@ def gen_config(rng, prop, tier):
         # the archive is named relative to the working directory it is opened in, and the process changes
         # directory while the decorated function lives on (directory and sqlite archives are bound when opened)
         backend['rel'] = True
-    cfg = {'module': module, 'algo': algo, 'maxsize': maxsize, 'maxsize_pos': maxsize_pos,
+    unenc = prop == 'C07' and not direct and not wide and rng.chance(0.1) and algo != 'no' and maxsize != 0 and \
+        label in ('file-pkl', 'file-json', 'dir-pkl', 'dir-json', 'dir-z', 'dir-fast', 'sql-file')
+    cfg = {'module': module, 'algo': algo, 'maxsize': maxsize, 'maxsize_pos': maxsize_pos, 'unenc': unenc,
            'purge': purge, 'keymap': km, 'fn': fn,
            'backend': backend, 'direct': direct,
            'ignore': None, 'tol': None, 'deep': False, 'wide': wide, 'huge': huge,
@@ -587,7 +592,7 @@ def generate(rng, prop, tier):
         # enough distinct calls to overflow a cache of 30-40 entries several times
         hot = [logical_call(rng, fn, pool, True) for _ in range(rng.randint(45, 80))]
     strict = prop in ('C02', 'C07') and cfg['backend'] is not None and not cfg['direct'] and \
-        cfg['backend']['label'] not in ('null',) and rng.chance(0.5)
+        cfg['backend']['label'] not in ('null',) and rng.chance(0.5) and not cfg.get('unenc')
     mix = list(OPMIX[prop])
     if strict:
         mix = [(w, k) for (w, k) in mix if k in ('call', 'dump', 'dump_k', 'load', 'load_k',
@@ -603,6 +608,8 @@ def generate(rng, prop, tier):
         mix = [(w, k) for (w, k) in mix if k != 'sibling_call']
     if not (cfg['backend'] and cfg['backend'].get('rel')):
         mix = [(w, k) for (w, k) in mix if k != 'chdir']
+    if cfg.get('unenc'):
+        mix = [(w, k) for (w, k) in mix if k not in ('restart', 'restart_dump', 'swap', 'peer_call', 'clear')]
     if fn in ('r1', 'b1') or cfg['keymap']['kind'] == 'raw' or cfg.get('ignore') is not None or \
        (cfg['keymap']['kind'] == 'pickle' and cfg['keymap']['arg'] == 'json' and False):
         mix = [(w, k) for (w, k) in mix if k != 'mcall']
@@ -760,6 +767,7 @@ class World(object):
         self.raise_next = None
         self.fn, self.rfn = FUNCS[self.cfg['fn']]
         _BIGRES[0] = bool(self.cfg.get('bigres'))
+        _UNENC[0] = bool(self.cfg.get('unenc'))
         _WRAP_CNT[0] = self.cfg['fn'] == 'b1' 
         self.generation = 0
         self.swapped = 0
@@ -920,6 +928,21 @@ class Oracle(object):
         in_arch0 = bool(hashable and before['on'] and arch0 is not None and key in arch0)
 
         # ---- C01 / generic: results and exceptions
+        unenc_about = prop == 'C07' and w.cfg.get('unenc') and tag == 'exc' and not raised_req and \
+            (any(isinstance(v, Unpicklable) for v in mem1.values()) or any(isinstance(v, Unpicklable) for v in mem0.values()))
+        if unenc_about:
+            # a result that no encoding accepts is resident and a dump of it was refused: the caller gets the
+            # encoder's error (fault: "value cannot be encoded"); nothing may be lost because of it
+            self.bump('dump-refused-unencodable-value')
+            for k, v in mem0.items():
+                if k not in mem1 and not (arch1 is not None and k in arch1 and arch1[k] == v):
+                    raise Mismatch('lost-on-eviction', 'call %s failed with %s while an un-encodable value was resident, and key %s '
+                                   'left memory without being in the archive' % (show_op(op), type(val).__name__, show(k)))
+            for k, v in (arch0 or {}).items():
+                if arch1 is None or k not in arch1 or arch1[k] != v:
+                    raise Mismatch('archive-entry-changed', 'call %s failed with %s and archived entry %s changed or vanished'
+                                   % (show_op(op), type(val).__name__, show(k)))
+            return
         if tag == 'exc':
             if raised_req and isinstance(val, SimFault):
                 pass
@@ -1355,6 +1378,11 @@ def run_world(case, prop, root, name, skip, fs, clock, probes, faults, log):
             if after['on'] and after['arch'] is not None and len(after['mem']) > (w.eff_maxsize or 0) \
                and w.eff_algo not in ('inf',):
                 bump(probes, 'bulk-load-overfills')
+        elif kind == 'dump' and cfg.get('unenc'):
+            try:
+                f.dump()
+            except Exception:
+                bump(faults, 'dump-refused-unencodable-value')
         elif kind == 'dump':
             f.dump()
         elif kind in ('load_k', 'dump_k'):
@@ -1365,7 +1393,12 @@ def run_world(case, prop, root, name, skip, fs, clock, probes, faults, log):
                     keys.append(f.key(*a, **k))
                 except Exception:
                     pass
-            (f.load if kind == 'load_k' else f.dump)(*keys)
+            try:
+                (f.load if kind == 'load_k' else f.dump)(*keys)
+            except Exception:
+                if not cfg.get('unenc'):
+                    raise
+                bump(faults, 'dump-refused-unencodable-value')
         elif kind in ('clear', 'clear_keep'):
             if kind == 'clear':
                 f.clear()
@@ -1605,7 +1638,10 @@ def simplify(case):
 def signature(case, viol, prop):
     cfg = case['cfg']
     canon = {'load_k': 'load', 'dump_k': 'dump', 'restart_dump': 'restart', 'clear_keep': 'clear'}
-    kinds = sorted(set(canon.get(op['op'], op['op']) for op in case['ops']) - {'call'})
+    # calls made by other parties (second instance, sibling, shared decorator) and pure environment steps are
+    # not part of the function's own history: they do not distinguish findings
+    kinds = sorted(set(canon.get(op['op'], op['op']) for op in case['ops'])
+                   - {'call', 'peer_call', 'sibling_call', 'codeco_call', 'chdir', 'advance'})
     feats = []
     if cfg['maxsize_pos'] and cfg['maxsize'] in (0, None):
         feats.append('maxsize-positional-%s' % cfg['maxsize'])
